@@ -49,10 +49,11 @@ theorem taskPackets_eq (t : Option Task) : taskW (fun _ => 1) t = taskPackets t 
 
 
 /-- every execution of the threads is an execution of the protocol: all statements above hold in every
-state the threads can reach -/
+state the threads can reach.  `hloop`: the fixed loop condition, or (old condition) no continuous source -/
 theorem loop_reachable {cfg : Cfg} {srcIds : Nat → List Nat} {contIds : List Nat} (h0 : Start cfg srcIds contIds)
+    (hloop : cfg.loopFixed = true ∨ contIds = [])
     {ls : List LLabel} {s : LState} (hrun : lrun cfg (linit srcIds contIds) ls = some s) :
-    LInv cfg (init srcIds contIds) s :=
-  lrun_inv (start_total h0) ls _ s (linit_inv cfg srcIds contIds) hrun
+    LInv cfg (init srcIds contIds) s ∧ LOwn cfg s :=
+  lrun_inv (start_total h0) ls _ s (linit_inv cfg srcIds contIds) (linit_own cfg srcIds contIds hloop) hrun
 
 end CMacVerif.Photon
